@@ -74,7 +74,7 @@ func init() {
 		Oracle: func(c *Case, impl string) *Viol {
 			f := strings.Split(c.Req, "\t")
 			var full []byte
-			if f[4] != "-" {
+			if f[4] != "." {
 				for _, ch := range strings.Split(f[4], ",") {
 					b, _ := unhx(ch)
 					full = append(full, b...)
@@ -122,7 +122,7 @@ func genC12(g *G) {
 					chunks = append(chunks, hx(c))
 					total += len(c)
 				}
-				cw := "-"
+				cw := "." // no Write call at all ("-" is one Write call with no bytes)
 				if len(chunks) > 0 {
 					cw = strings.Join(chunks, ",")
 				}
